@@ -58,6 +58,8 @@ def render(x):
             "(" + render(x[0]) + "," + render(tuple(x[1:])) + ")"
     if isinstance(x, list):
         return "[" + ",".join(render(e) for e in x) + "]"
+    if isinstance(x, bytearray):        # third round (`encode_bias`): the list of its bytes, Python ints
+        return render(list(x))
     return "unsupported:" + type(x).__name__
 
 
@@ -123,6 +125,8 @@ def ops_requests(rng, n):
                 b = rng.choice([0, 1, 2, 3, 5, 8, 16, 31, 64, -1, -3])
             if op == "pow" and abs(b) > 4096:
                 b = b % 70
+            if tb in ("u8", "u16", "u32") and b < 0:
+                b = -b      # (third round) the literal exponents above are not values of an unsigned type: `np.uint16(-3)` itself raises
             if op == "shl" and tb == "py" and ta != "py" and abs(b) > 10 ** 6:
                 pass   # goes through the conversion check (OverflowError) or the count rule
             py = outcome(lambda: BINOPS[op](mk(ta, a), mk(tb, b)))
@@ -168,6 +172,21 @@ def call_requests(rng, sigs, n):
         typed = modname == "fp_math"
         for _ in range(n):
             args, rendered = [], []
+            if fn == "encode_bias":
+                # third round: the function asserts `np.int64` / `int` / `int` and three ranges: mostly well-typed arguments
+                # around the range boundaries, sometimes a wrong type (the `isinstance` asserts are tag tests in PyRt)
+                for k, (good, lim) in enumerate((("i64", 2 ** 39), ("py", 2 ** 32), ("py", 64))):
+                    tag = good if rng.random() < 0.9 else rng.choice(["py", "i32", "i64", "u8"])
+                    v = rng.choice([0, 1, -1, 5, 63, 64, 255, 256, -684, 1167018453, lim - 1, lim, -lim, -lim - 1, lim // 2,
+                                    rng.randrange(-lim, lim), rng.randrange(-lim, lim)])
+                    lo, hi = RANGE.get(tag, (-2 ** 70, 2 ** 70))
+                    if not lo <= v <= hi:
+                        tag = "py" if good == "py" else "i64"
+                    args.append(mk(tag, v))
+                    rendered.append(f"{tag}:{v}")
+                py = outcome(lambda: f(*args))
+                reqs.append((f"call {name} " + " ".join(rendered), py))
+                continue
             for s in shp:
                 if s == "N":
                     tag = rng.choice(["py", "py", "py", "i32", "i64", "i16", "i8", "u8"]) if typed else "py"
